@@ -1243,11 +1243,24 @@ pub fn f_bigbatch(seed: u64) -> Plan {
     for j in 0..n_subs {
         let sub = sub_name("proj-b", 0, j);
         let mut s = Vec::new();
+        let ack_at_end = rng.chance(400);
         for _ in 0..6 {
             s.push(Step::new(Op::Pull { sub: sub.clone(), max: *rng.pick(&[1000i32, 1000, 700, 5000]), immediate: true }));
-            s.push(Step::new(Op::Ack { sub: sub.clone(), sel: sel_mine(Pick::LastResponse) }));
+            if !ack_at_end {
+                s.push(Step::new(Op::Ack { sub: sub.clone(), sel: sel_mine(Pick::LastResponse) }));
+            }
+        }
+        if ack_at_end {
+            // one Acknowledge naming everything this consumer received (1000-3000+ ids)
+            s.push(Step::new(Op::Ack { sub: sub.clone(), sel: sel_mine(Pick::All) }));
         }
         scripts.push(s);
+    }
+    // let every lease that was not really acknowledged run out, then look again
+    plan.phases.push(Phase { scripts, advance_us: 61_500_000, audit: false });
+    let mut scripts: Vec<Vec<Step>> = Vec::new();
+    for j in 0..n_subs {
+        scripts.push(vec![Step::new(Op::Pull { sub: sub_name("proj-b", 0, j), max: 1000, immediate: true })]);
     }
     plan.phases.push(Phase { scripts, advance_us: 0, audit: false });
     plan
@@ -1346,5 +1359,46 @@ pub fn f_consumers_saturated(seed: u64) -> Plan {
     }
     plan.phases.push(Phase { scripts, advance_us: 0, audit: true });
     plan.phases.push(Phase { scripts: vec![], advance_us: 0, audit: true });
+    plan
+}
+
+
+// ------------------------------------------------------------------------------------------------
+// F-lease-stream: deadlines set and re-set through StreamingPull control messages, with quiet
+// periods on the request side in between; the stream itself receives the redeliveries.
+// ------------------------------------------------------------------------------------------------
+
+pub fn f_lease_stream(seed: u64) -> Plan {
+    let mut rng = Rng::new(seed);
+    let mut plan = Plan { seed, family: "lease_stream".into(), final_drain: true, health_probe: false, ..Default::default() };
+    plan.knobs = knobs(&mut rng, false, 0);
+    let topic = topic_name("proj-z", 0);
+    let sub = sub_name("proj-z", 0, 0);
+    let dl = *rng.pick(&[10i32, 10, 20, 60]);
+    plan.phases.push(Phase {
+        scripts: vec![vec![
+            Step::new(Op::CreateTopic { topic: topic.clone() }),
+            Step::new(Op::CreateSub { sub: sub.clone(), topic: topic.clone(), ack_deadline: dl, push: None }),
+            Step::new(Op::StreamOpen { slot: 1, sub: sub.clone(), max_msgs: 0, max_bytes: 0, policy: StreamPolicy::Hold }),
+        ]],
+        advance_us: rng.below(3_000_000),
+        audit: false,
+    });
+    plan.phases.push(Phase { scripts: vec![vec![Step::new(Op::Publish { topic: topic.clone(), msgs: msgs_r(&mut rng, 1, 3, false) })]], advance_us: rng.below(2_000_000), audit: true });
+    // a sequence of control messages, each followed by a barrier (so it is certainly processed)
+    // and a quiet period
+    let frame = |rng: &mut Rng, secs: i32| Op::StreamSend { slot: 1, ack: Sel::none(), modack: sel_any(rng.pick(&[Pick::All, Pick::LastN(1), Pick::Nth(0)]).clone()), modack_secs: secs, raw_sub: String::new(), raw_max_msgs: 0, raw_max_bytes: 0, extra_secs: vec![], secs_pattern: vec![] };
+    let first = *rng.pick(&[30i32, 60, 120, 600]);
+    plan.phases.push(Phase { scripts: vec![vec![Step::new(frame(&mut rng, first))]], advance_us: *rng.pick(&[5_000_000u64, 20_000_000, 40_000_000]).min(&((first as u64 - 5) * 1_000_000)), audit: true });
+    for _ in 0..rng.range(1, 3) {
+        let secs = *rng.pick(&[5i32, 15, 30, 60, 90, 600]);
+        let quiet = *rng.pick(&[1_000_000u64, 4_000_000, 12_000_000, 25_000_000, 50_000_000]);
+        plan.phases.push(Phase { scripts: vec![vec![Step::new(frame(&mut rng, secs))]], advance_us: quiet, audit: true });
+    }
+    // an ack frame after a quiet period, then silence past every deadline
+    if rng.chance(500) {
+        plan.phases.push(Phase { scripts: vec![vec![Step::new(Op::StreamSend { slot: 1, ack: sel_any(Pick::Nth(0)), modack: Sel::none(), modack_secs: 0, raw_sub: String::new(), raw_max_msgs: 0, raw_max_bytes: 0, extra_secs: vec![], secs_pattern: vec![] })]], advance_us: 0, audit: true });
+    }
+    plan.phases.push(Phase { scripts: vec![], advance_us: *rng.pick(&[0u64, 30_000_000, 700_000_000]), audit: true });
     plan
 }
